@@ -20,6 +20,7 @@ ENV = dict(os.environ, CARGO_NET_OFFLINE="true")
 ENGINES = {
     "e1": ("engines/e1", []),
     "e1p": ("engines/e1", ["persistence"]),
+    "e3": ("engines/e3", []),
 }
 
 # property -> configuration
@@ -61,19 +62,86 @@ PROPS = {
     "C13": dict(engine="e1", quick=2500, thorough=60000, level="exploration",
                 text="Cyclic programs whose block members use cycle_result; expected = fallback for every node on a cycle of the input-determined call graph (SCC analysis in the reference), body value over those results elsewhere; all entry orders within a revision, and histories that form/break cycles. One genuine defect is recorded (known-findings.txt) and matched by its own diagnosis class; every other mismatch is a violation.",
                 note="The single-revision class is free of the recorded finding's trigger; the history class reports it as KNOWN-FINDING."),
-    "C14": dict(engine="e1", quick=10000, thorough=200000, level="exploration",
+    "C14": dict(parts=[dict(engine="e1", quick=8000, thorough=150000), dict(engine="e3", quick=2000, thorough=30000)], level="exploration",
                 text="Cyclic programs whose block mixes functions without recovery and q_fix; per request: a cycle panic is required on a fresh database when the from-scratch DFS re-enters a non-recovering function, allowed whenever such a function lies on a reachable cycle, otherwise the least-fixpoint value is required; after a panic the same revision may report PropagatedPanic for poisoned heads; later revisions and unrelated nodes = reference. (single-thread part; the multi-thread part runs on E3)",
                 note="Hang detection single-threaded = the run returns; cross-thread part pending E3."),
     "C15": dict(engine="e1", quick=6000, thorough=100000, level="exploration",
                 text="Fixpoint programs with an input-guarded non-monotone step: guard on => the request ends in the bounded 'too many cycle iterations' panic or converges, never exceeding iteration 200; unrelated nodes = reference; after the guard is switched off the same nodes = least fixpoint in later revisions.",
                 note="Values returned while the guard is on are not compared (order-dependent for non-monotone systems)."),
+    "C08": dict(level="exploration", parts=[dict(engine="e3", quick=1200, thorough=30000), dict(engine="e1", quick=6000, thorough=100000)],
+                text="Threads intern overlapping small values of It1/It2/It3/ItInf concurrently, directly and inside queries, over joined revisions, under the seeded baton scheduler (random / PCT / round-robin, spurious condvar wake-ups); per revision: equal data <=> equal handle across all threads and queries, fields read back. Single-handle part (E1): canonicity, identity kept across revisions for values interned in every revision.",
+                note="E3 replaces the sync primitives by the scheduler's (sequentially consistent interleavings only)."),
+    "C16": dict(level="exploration", parts=[dict(engine="e3", quick=1200, thorough=30000)],
+                text="2-4 reader threads (one clone each) request nodes of generated acyclic programs with shared sub-queries under seeded schedules; every value = reference, every thread terminates (deadlock = no runnable thread, livelock = step bound), joined writes between rounds.",
+                note="Schedules are sampled (random with stay bias, PCT depth<=3/5, round robin), not enumerated; SC interleavings only."),
+    "C17": dict(level="exploration", parts=[dict(engine="e3", quick=1200, thorough=30000)],
+                text="Same runs as C16 over 2-3 revisions; monitor over the global event log: at most one WillExecute per (function, key) per revision across all threads.",
+                note="Programs are acyclic, fault-free, cancellation-free, eviction-free by construction."),
+    "C18": dict(level="exploration", parts=[dict(engine="e3", quick=1200, thorough=30000)],
+                text="2-4 threads enter generated fixpoint / fallback cycles (nested, conditional) at different members under seeded schedules; every value = least fixpoint / SCC fallback reference, all threads terminate.",
+                note="Fallback programs are explored within one revision only (recorded C13 finding needs a later revision)."),
+    "C20": dict(level="exploration", parts=[dict(engine="e3", quick=1200, thorough=30000)],
+                text="Reader threads run generated programs (acyclic and fixpoint) while the main thread performs one write (input write, synthetic write, set_lru_capacity, trigger_lru_eviction, trigger_cancellation) at a scheduler-chosen moment; readers drop their clone when done or cancelled: the writer must terminate, every reader value = reference of the pre-write revision, every reader panic is a Cancelled (PendingWrite, or PropagatedPanic for readers waiting on a cancelled reader), after the write everything = reference of the new inputs.",
+                note="Which cancellation payload a waiting reader sees is not constrained by the property; only value freshness and writer progress are checked."),
+    "C21": dict(level="exploration", parts=[dict(engine="e3", quick=1200, thorough=30000)],
+                text="A controller cancels reader tokens at scheduler-chosen moments (including inside fixpoint cycles and while other readers wait on the cancelled computation): at most one Cancelled::Local per cancel() and only on that handle, other readers and later requests on the handle return reference values, no deadlock.",
+                note="Moment of cancellation is a number of controller yields, i.e. sampled."),
+    "C24": dict(level="exploration", parts=[dict(engine="e3", quick=1200, thorough=30000)],
+                text="Threads create inputs, tracked structs (through queries on distinct keys) and interned values concurrently while handles are cloned and dropped; ids of inputs pairwise distinct, tracked-struct ids distinct per (creator, ident), every id reads back the fields it was created with.",
+                note="Page recycling is exercised through clone/drop of handles; the small-page knob is not built."),
 }
 
 COMPONENTS = {
     "e1": {"real": ["all of salsa (normal build, parking_lot primitives, default features + salsa_verif accessors)", "salsa-macros generated code"],
            "stub": ["none (single handle, single thread; user code = program interpreter)"]},
     "e1p": {"real": ["all of salsa incl. persistence feature, serde_json"], "stub": ["none"]},
+    "e3": {"real": ["all of salsa built with its `shuttle` feature from /repo's sources (shadow manifest)", "real OS threads, real unwinding, real thread-locals"],
+           "stub": ["Mutex/Condvar/atomics/thread spawn+join = verif-sched (baton scheduler, sequentially consistent); parking_lot is not exercised"]},
 }
+
+
+def toml_val(v):
+    if isinstance(v, bool):
+        return "true" if v else "false"
+    if isinstance(v, str):
+        return json.dumps(v)
+    if isinstance(v, list):
+        return "[" + ", ".join(toml_val(x) for x in v) + "]"
+    if isinstance(v, dict):
+        return "{ " + ", ".join(f"{k} = {toml_val(x)}" for k, x in v.items()) + " }"
+    return str(v)
+
+
+def gen_shadow():
+    """Shadow manifest: the package `salsa` built from /repo's sources, with the optional
+    dependency `shuttle` re-targeted to our scheduler crate (lib name `shuttle`). Regenerated
+    from /repo/Cargo.toml on every run; /repo itself is not touched."""
+    import tomllib
+    repo = "/repo"
+    t = tomllib.load(open(os.path.join(repo, "Cargo.toml"), "rb"))
+    ws = t.get("workspace", {}).get("package", {})
+    pkg = t["package"]
+    out = ["# GENERATED by vcheck.py from /repo/Cargo.toml -- do not edit", "[package]", 'name = "salsa"', f'version = {toml_val(pkg["version"])}',
+           f'edition = {toml_val(ws.get("edition", "2021"))}', "publish = false", "", "[lib]", f'path = {toml_val(os.path.join(repo, "src/lib.rs"))}', "", "[dependencies]"]
+    for name, spec in t["dependencies"].items():
+        if isinstance(spec, str):
+            spec = {"version": spec}
+        spec = dict(spec)
+        if "path" in spec:
+            spec["path"] = os.path.join(repo, spec["path"])
+            spec.pop("version", None)
+        if name == "shuttle":
+            spec = {"package": "verif-sched", "path": os.path.join(ROOT, "crates/verif-sched"), "optional": True}
+        out.append(f"{name} = {toml_val(spec)}")
+    out += ["", "[features]"]
+    for name, deps in t["features"].items():
+        out.append(f"{name} = {toml_val(deps)}")
+    d = os.path.join(ROOT, "shadow", "salsa")
+    os.makedirs(d, exist_ok=True)
+    text = "\n".join(out) + "\n"
+    p = os.path.join(d, "Cargo.toml")
+    if not os.path.exists(p) or open(p).read() != text:
+        open(p, "w").write(text)
 
 
 def sim_bin(engine):
@@ -82,6 +150,11 @@ def sim_bin(engine):
 
 def build(engine):
     d, feats = ENGINES[engine]
+    if engine == "e3":
+        gen_shadow()
+        lock = os.path.join(ROOT, d, "Cargo.lock")
+        if not os.path.exists(lock):
+            shutil.copy("/repo/Cargo.lock", lock)
     cmd = ["cargo", "build", "--release", "--offline", "--manifest-path", os.path.join(ROOT, d, "Cargo.toml")]
     if feats:
         cmd += ["--features", ",".join(feats)]
@@ -129,33 +202,54 @@ def read_hashes(path):
     return a
 
 
+def parts_of(cfg):
+    return cfg.get("parts") or [dict(engine=cfg["engine"], quick=cfg["quick"], thorough=cfg["thorough"])]
+
+
 def run_check(prop, tier):
     cfg = PROPS[prop]
-    engine = cfg["engine"]
     t0 = time.time()
-    build(engine)
+    parts = parts_of(cfg)
+    for part in parts:
+        build(part["engine"])
     seed = int(os.environ.get("VERIF_SEED", "1"))
-    per_worker = cfg[tier]
     out_root = os.path.join(TARGET, "runs", f"{prop}-{tier}")
     shutil.rmtree(out_root, ignore_errors=True)
     os.makedirs(out_root)
-    procs = []
-    for w in range(NPROC):
-        out = os.path.join(out_root, f"w{w}")
-        cmd = [sim_bin(engine), "run", "--prop", prop, "--tier", tier, "--base", str(seed),
-               "--from", str(w * per_worker), "--to", str((w + 1) * per_worker), "--out", out,
-               "--max-s", str(cfg.get("max_s_" + tier, 100000)), "--known", ",".join(known_classes(prop))]
-        procs.append((w, out, subprocess.Popen(cmd, env=ENV, stdout=subprocess.PIPE, stderr=subprocess.PIPE, text=True)))
     results, harness_errors, aborts = [], [], []
-    for w, out, p in procs:
+    all_outs = []
+    for pi, part in enumerate(parts):
+        engine = part["engine"]
+        per_worker = part[tier]
+        procs = []
+        for w in range(NPROC):
+            out = os.path.join(out_root, f"p{pi}w{w}")
+            all_outs.append(out)
+            cmd = [sim_bin(engine), "run", "--prop", prop, "--tier", tier, "--base", str(seed),
+                   "--from", str(w * per_worker), "--to", str((w + 1) * per_worker), "--out", out,
+                   "--max-s", str(part.get("max_s_" + tier, 100000)), "--known", ",".join(known_classes(prop))]
+            procs.append((w, out, engine, subprocess.Popen(cmd, env=ENV, stdout=subprocess.PIPE, stderr=subprocess.PIPE, text=True)))
+        run_part(procs, results, harness_errors, aborts)
+    engine = parts[0]["engine"]
+    finish_check(prop, tier, cfg, parts, seed, t0, out_root, all_outs, results, harness_errors, aborts)
+
+
+def run_part(procs, results, harness_errors, aborts):
+    for w, out, engine, p in procs:
         so, se = p.communicate()
         if p.returncode != 0:
             # attributable abort: the worker wrote the seed it was about to run
             cur = [f for f in os.listdir(out) if f.startswith("cur.")] if os.path.isdir(out) else []
             seedinfo = open(os.path.join(out, cur[0])).read().split() if cur else None
-            aborts.append((w, p.returncode, seedinfo, se[-2000:]))
+            aborts.append((w, p.returncode, seedinfo, se[-2000:], engine))
             continue
-        results.append(json.load(open(os.path.join(out, "result.json"))))
+        r = json.load(open(os.path.join(out, "result.json")))
+        r["engine"] = engine
+        results.append(r)
+
+
+def finish_check(prop, tier, cfg, parts, seed, t0, out_root, all_outs, results, harness_errors, aborts):
+    engine = parts[0]["engine"]
     runs = sum(r["runs"] for r in results)
     steps = sum(r["steps"] for r in results)
     revisions = sum(r["revisions"] for r in results)
@@ -168,9 +262,9 @@ def run_check(prop, tier):
             classes[k] = classes.get(k, 0) + v
         harness_errors += r["harness_errors"]
     distinct, nontrivial = set(), set()
-    for w in range(NPROC):
-        distinct.update(read_hashes(os.path.join(out_root, f"w{w}", "hashes.bin")))
-        nontrivial.update(read_hashes(os.path.join(out_root, f"w{w}", "nontrivial.bin")))
+    for o in all_outs:
+        distinct.update(read_hashes(os.path.join(o, "hashes.bin")))
+        nontrivial.update(read_hashes(os.path.join(o, "nontrivial.bin")))
     samples = []
     for r in results:
         samples += r["samples"]
@@ -186,7 +280,7 @@ def run_check(prop, tier):
             known_hit_counts[k] = known_hit_counts.get(k, 0) + v
     for r in results:
         for v in r["violations"] + r.get("known_samples", []):
-            p = subprocess.run([sim_bin(engine), "replay", v["replay"]], env=ENV, stdout=subprocess.PIPE, stderr=subprocess.PIPE, text=True)
+            p = subprocess.run([sim_bin(r["engine"]), "replay", v["replay"]], env=ENV, stdout=subprocess.PIPE, stderr=subprocess.PIPE, text=True)
             if p.returncode == 1 and "REPRODUCED" in p.stdout:
                 sig = v.get("signature", "")
                 hit = [k for k in known if k[0] == prop and k[1] == sig]
@@ -199,7 +293,7 @@ def run_check(prop, tier):
                 confirmed.append((v, dst))
             else:
                 harness_errors.append(f"violation at seed {v['seed']} did not reproduce from its replay file ({p.stdout.strip()[-300:]})")
-    for w, rc, seedinfo, se in aborts:
+    for w, rc, seedinfo, se, engine in aborts:
         if seedinfo:
             # reproduce the abort in a fresh process from the seed
             os.makedirs(rep_dir, exist_ok=True)
@@ -226,7 +320,7 @@ def run_check(prop, tier):
             "evaluations": runs,
             "distinct_nontrivial": len(nontrivial),
             "distinct_cases": len(distinct),
-            "rule": cfg.get("rule") or rule_of(engine, prop),
+            "rule": " || ".join(f"[{p['engine']}] " + rule_of(p["engine"], prop) for p in parts),
             "samples": samples,
             "simulated_steps": steps,
             "simulated_revisions": revisions,
@@ -236,8 +330,8 @@ def run_check(prop, tier):
             "probes": probes,
             "runs_reaching_probe": {k[len("runs_with_"):]: v for k, v in stats.items() if k.startswith("runs_with_")},
             "determinism_selfcheck_runs": sum(r["selfcheck_runs"] for r in results),
-            "components": COMPONENTS.get(engine, {}),
-            "engine": engine,
+            "components": {p["engine"]: COMPONENTS.get(p["engine"], {}) for p in parts},
+            "engine": "+".join(p["engine"] for p in parts),
             "workers": NPROC,
             "known_findings_hit": sorted(set(k[0] for k in known_hits)),
             "known_finding_runs": known_hit_counts,
@@ -296,17 +390,18 @@ def write_manifest():
             "thorough_cmd": f"python3 vcheck.py {pid} --tier thorough",
             "evidence_file": f"evidence/{pid}.json",
             "replay_cmd_template": "python3 vcheck.py --replay {path}",
-            "engine": c["engine"],
+            "engine": "+".join(p["engine"] for p in parts_of(c)),
             "level_claimed": {"category": c["level"], "text": c["text"], "design_ref": f"DESIGN.md §5 {pid}"},
             "level_note": c["note"],
-            "technique": TECH[c["engine"]],
+            "technique": "; ".join(TECH[p["engine"]] for p in parts_of(c)),
         })
     m["checks"] = checks
     claimed = set(PROPS)
     m["not_applicable"] = [x for x in m.get("not_applicable", []) if x["property_id"] not in claimed]
     engines = {}
     for pid, c in PROPS.items():
-        engines.setdefault(c["engine"], []).append(pid)
+        for p in parts_of(c):
+            engines.setdefault(p["engine"], []).append(pid)
     m["engines"] = [{"name": e, "path": ENGINES[e][0], "serves_properties": sorted(ps), "kind_free_text": TECH[e]} for e, ps in sorted(engines.items())]
     json.dump(m, open(os.path.join(ROOT, "MANIFEST.json"), "w"), indent=1)
     print("MANIFEST.json written:", len(checks), "checks")
@@ -321,13 +416,15 @@ def main():
         write_manifest()
         return
     if a[0] == "--setup":
-        for e in sorted(set(c["engine"] for c in PROPS.values())):
+        for e in sorted(set(p["engine"] for c in PROPS.values() for p in parts_of(c))):
             build(e)
         print("setup ok")
         return
     if a[0] == "--replay":
         c = json.load(open(a[1]))
-        engine = PROPS[c["property"]]["engine"]
+        engine = c.get("engine", "e1")
+        if engine == "e1" and parts_of(PROPS[c["property"]])[0]["engine"] == "e1p":
+            engine = "e1p"
         build(engine)
         p = subprocess.run([sim_bin(engine), "replay", a[1]], env=ENV)
         sys.exit(p.returncode)
